@@ -229,6 +229,11 @@ def datamodel_of(cfg):
             if t["integrity"]:
                 d["integrity_constraints"] = ["{{ _SELF." + a + " in " + p + "_pkeys }}"
                                               for a, p in t["fks"].items()]
+        if t.get("ics"):
+            d["integrity_constraints"] = [
+                ("{{ _SELF." + a + " in " + p + "_pkeys }}") if form == "pkeys" else
+                ("{{ _SELF." + a + " in (" + p + " | map(attribute='" + ptype_pkey(cfg, p) + "') | list) }}")
+                for a, p, form in t["ics"]]
         dm[t["name"]] = d
     return dm
 
@@ -293,7 +298,13 @@ def run_case(case, workdir, logsink=None, keep=False):
         if st.get("isync"):
             srv._initSyncRequested = True
         H.run_server(srv, 1)
+        frags = {t["name"]: [(o.getPKey(), copy.deepcopy(o.toNative()))
+                             for f in srv.dm._fragments[t["name"]] for o in f._dataobjects]
+                 for t in cfg["types"]}
+        ifiltered = {t["name"]: sorted(srv.dm.data[t["name"]].integrityFiltered, key=sortkey)
+                     for t in cfg["types"]}
         obs.append({"trace": list(world["log"]), "views": list(world["views"]),
+                    "frags": frags, "ifiltered": ifiltered,
                     "mem": H.snapshot_ds(srv.dm.data.cache),
                     "disk": load_disk(workdir + "/cache", cfg),
                     "exc": srv._cache.exception,
@@ -335,6 +346,13 @@ class Ctx:
                 for t, objs in ob[src].items():
                     for k in objs:
                         addkey(k)
+            for t, lst in (ob.get("frags") or {}).items():
+                for k, _ in lst:
+                    try:
+                        hash(k)
+                        addkey(k)
+                    except TypeError:
+                        pass
             for rec in ob["trace"]:
                 if rec[0] in ("send", "sendfail") and rec[4] is not None:
                     addkey(rec[4])
